@@ -165,6 +165,7 @@ func parent() {
 	}
 	// ---- what an accepted hostile message leaves behind (in this process: a handler panic is recovered by net/http)
 	r.Guard("stored oddities", func() { storedOddities(r) })
+	r.Guard("idle periods", func() { idlePeriods(r) })
 
 	if r.Counter("cases_not_run_after_a_confirmed_missing_answer") == 0 {
 		r.Floor("hostile_messages_executed", executed, n*95/100)
